@@ -8,17 +8,25 @@ pub fn run(tier: Tier) -> i32 {
         &Cfg {
             id: "C03",
             mode: Mode::Ser,
-            rule: "supported-subset schema sets (canonical member names, 1-4 files, extensions across files, element refs, attributes, nested sequences, choices, derived simple types with facets, colliding namespace abbreviations) x up to 5 root types per set x 3 generated values each (optional present/absent, repeats 0..3, numeric extremes of every builtin, XML-special and multi-byte text, valid lexicals for date-like strings, facet-conformant restricted values, one branch per choice). Each value is written as a Rust expression in the generated types, compiled into a driver and serialized with yaserde::ser::to_string; the document is parsed by roxmltree (parse success = namespace-well-formed, every prefix declared) and compared with the expected infoset derived from the schema model: element QNames (namespace of the declaring schema), unqualified attributes by declared name, children in declaration order, absent optionals omitted, one element per item, leaf text equal in the value space of its builtin. Non-trivial: a set with a cross-namespace member, an extension, an attribute or an element ref, with at least one value judged; distinct by file set and value tape.",
+            rule: "supported-subset schema sets (canonical member names, 1-4 files, extensions across files, element refs, attributes, nested sequences, choices, derived simple types with facets, colliding namespace abbreviations) x up to 5 root types per set x 3 generated values each (optional present/absent, repeats 0..3, numeric extremes of every builtin, XML-special and multi-byte text, valid lexicals for date-like strings, facet-conformant restricted values, one branch per choice). Each value is written as a Rust expression in the generated types, compiled into a driver and serialized with yaserde::ser::to_string; the document is parsed by roxmltree (parse success = namespace-well-formed, every prefix declared) and compared with the expected infoset derived from the schema model: element QNames (namespace of the declaring schema), unqualified attributes by declared name, children in declaration order, absent optionals omitted, one element per item, leaf text equal in the value space of its builtin. In addition the request and response envelopes of 40 (thorough 400) generated WSDLs are serialized and compared in the same way (Envelope > Header entries under their own QNames > Body > bound element). Non-trivial: a set with a cross-namespace member, an extension, an attribute or an element ref, with at least one value judged; distinct by file set and value tape.",
             n_quick: 150,
             n_thorough: 2500,
             tune: &|p| {
                 p.colliding_abbrev = true;
                 p.xml_lang = 1;
             },
+            // generated envelope types are generated types too: request envelopes of generated WSDLs
+            // (Envelope > Header entries under their own QNames > Body > bound element)
+            also: Some(&|ev, findings, tier| {
+                crate::soap::run_into(ev, findings, tier, &crate::soap::Cfg { id: "C03", aspect: crate::soap::Aspect::EnvelopesSer, rule: "", n_quick: 40, n_thorough: 400 });
+            }),
         },
     )
 }
 
 pub fn replay(case: &serde_json::Value) -> i32 {
+    if case["aspect"].is_string() {
+        return crate::soap::replay("C03", crate::soap::Aspect::EnvelopesSer, case);
+    }
     wire::replay("C03", Mode::Ser, case)
 }
